@@ -7,6 +7,7 @@ import PsVerif.Driver.PolicyD
 import PsVerif.Driver.SyncD
 import PsVerif.Driver.RecordD
 import PsVerif.Driver.WatchD
+import PsVerif.Driver.OpenD
 /-
 psdriver: one request per line on stdin, one reply per line on stdout.
 The replies are computed by the SAME definitions the theorems in PsVerif/Props are about.
@@ -28,6 +29,9 @@ def step (st : DState) (ws : List String) : DState × String :=
   | some r => (st, r)
   | none =>
   match handleWatch ws with
+  | some r => (st, r)
+  | none =>
+  match handleOpen ws with
   | some r => (st, r)
   | none =>
   match handleScript ws with
